@@ -87,7 +87,7 @@ def run_group(program, chooser, line_level=("allocate_id", "_register", "makegat
                     except BaseException as e:  # noqa: BLE001
                         if type(e).__name__ == "SimAbort":
                             raise
-                        snap("ret", "makegateway", name, op[1], type(e).__name__, op[1] is None)
+                        snap("ret", "makegateway", name, spec.id or op[1], type(e).__name__, op[1] is None)
                 elif op[0] == "exit" and mine:
                     gw = mine.pop(0)
                     snap("call", "exit", name, gw.id, "", False)
